@@ -23,7 +23,7 @@ man={
  "setup_cmd":"cd /verif && ./check build",
  "hooks":{"guard":"verif (Go build tag)","enable":"go build -tags verif (the harness module /verif/harness replaces github.com/mikefarah/yq/v4 by /repo and is built with -tags verif; the yq binary used by binary-level checks is built WITHOUT the tag)",
           "baseline_off_cmd":"cd /repo && GOFLAGS=-mod=mod GOPROXY=off GOSUMDB=off GOTOOLCHAIN=local go test -vet=off -count=1 ./...",
-          "source_commits":["5b85822","81b9303"],"add_only":True},
+          "source_commits":["5b85822","81b9303","74a3ad4"],"add_only":True},
  "engines":[{"name":"verif","path":"/verif/check","serves_properties":sorted(claimed),"kind_free_text":"explicit TLA+ specification (/verif/spec) checked with TLC; Go conformance harness (/verif/harness) replays TLC-generated vectors/behaviours into yqlib or the yq binary and validates recorded traces with TLC"}],
  "checks":[],
  "notes":"See DESIGN.md. Every check: ./check <ID> quick|thorough; exit 0 held, 1 VIOLATION, 2 machinery problem. Fix commits in /repo are listed in known_findings.json (fixed).",
